@@ -86,6 +86,7 @@ ISpec == IInit /\ [][INext]_<<ivars, base, last>> /\ WF_ivars(INext)
 (* The harness's projection of a string: [abs, trail, dbl, comps] with one   *)
 (* [len, cls] per non-empty segment.                                         *)
 ClsOfChars(c) == IF \E i \in DOMAIN c : c[i] = "u" THEN "utf8"
+                 ELSE IF \E i \in DOMAIN c : c[i] = "p" THEN "punct"   \* "p" stands for a backslash or another special-elsewhere byte
                  ELSE IF \E i \in DOMAIN c : c[i] = " " THEN "space"
                  ELSE IF \E i \in DOMAIN c : c[i] = "." THEN "dot" ELSE "ascii"
 RECURSIVE Segments(_, _)
